@@ -28,6 +28,23 @@ R15.5  wait_tasks / wait_pilots: monotone shrink.  On every path through one
 R15.6  same source: every comparison of the polling loop that involves the
        timeout and a clock is computed (through the definitions that reach it
        and single-return helpers) from reads of one clock function only.
+R15.7  who wakes the wait: every blocking call of the four functions
+       (`time.sleep(T)`, `<event>.wait(T)`) either has a period T bounded by a
+       constant (the states are polled) or - T derived from the timeout, or
+       None - blocks on an event that every writer of the awaited state (the
+       `<x>._update(..)` call sites of the manager class; the writes of
+       `self._state` for Task.wait / Pilot.wait) sets afterwards on every
+       path (in the function, in a method it calls, in Task/Pilot._update
+       itself, or in every caller); an unbounded sleep is a violation; a
+       `clear()` of the event inside the loop is followed by a read of the
+       states before the wait blocks (no lost wake-up).
+R15.8  hand-over: where a function of the four classes calls a wait anchor and
+       was itself given a timeout, the value it passes (sign analysis over
+       {None, <0, 0, >0} along the definitions that reach the call, narrowed
+       by the tests in between) is one the callee takes as a timeout: never
+       None, and 0 / a negative number only if the callee's polling loop
+       (R15.2 machinery, run for that sign) ends for it; inside a loop the
+       value shrinks with a clock or is a constant.
 """
 
 import ast
@@ -60,6 +77,13 @@ def _final(prog):
 BLOCKING = ('sleep', 'wait')
 
 
+def _callee_name(call):
+    """last name of the callee expression (`to_check[0].wait` -> 'wait')"""
+    if isinstance(call.func, ast.Attribute):
+        return call.func.attr
+    return call.func.id if isinstance(call.func, ast.Name) else ''
+
+
 def wait_loop(f, g):
     """the polling loop: the (outermost) `while` whose body blocks - it sleeps
     (`time.sleep(T)`) or waits on something (`<event>.wait(T)`, R15.7 decides
@@ -67,7 +91,7 @@ def wait_loop(f, g):
     heads = []
     for h, a in g.loop_ast.items():
         if isinstance(a, ast.While) and any(
-                call_name(c).split('.')[-1] in BLOCKING for c in calls_in(a)):
+                _callee_name(c) in BLOCKING for c in calls_in(a)):
             heads.append(h)
     heads = [h for h in heads
              if not any(o in g.nodes[h].loops for o in heads if o != h)]
@@ -629,18 +653,21 @@ def _timeout_atom(f, atom, tname, val='pos'):
                                                              short(atom, 60)))
 
 
-def _timeout_view(f, g, node, tname):
+def _timeout_view(f, g, node, tname, val='pos'):
     """the test of a cfg node with every local that is computed from the
     timeout (a deadline: `end = start + timeout`, possibly `None` / 0 when no
-    timeout was given) replaced by that computation"""
-    from ..flow import reaching_defs
+    timeout was given) replaced by that computation.  For a timeout of 0
+    (val == 'zero', R15.8) a computation that only happens under `if timeout`
+    does not happen: the local keeps its `None` / 0"""
+    from ..flow import reaching_defs, guards
     atom = node.ast
     mapping = {}
     for x in walk(atom, nested=True):
         if not (isinstance(x, ast.Name) and isinstance(x.ctx, ast.Load)) or \
                 x.id == tname or x.id in mapping or x.id in f.params:
             continue
-        vals = [v for dn, v in reaching_defs(g, x.id, node.id)]
+        defs = reaching_defs(g, x.id, node.id)
+        vals = [v for dn, v in defs]
         dep = [v for v in vals if v is not None and reads_name(v, tname)]
         if not dep:
             continue
@@ -652,7 +679,34 @@ def _timeout_view(f, g, node, tname):
                 'from the timeout in a way the recogniser does not follow'
                 % (f.where, x.id, short(atom, 60)))
         mapping[x.id] = dep[0]
+        if val == 'zero':
+            dn = [d for d, v in defs if v is dep[0]][0]
+            if any(lab == 'T' and isinstance(g.nodes[t].ast, ast.Name) and
+                   g.nodes[t].ast.id == tname for t, lab in guards(g, dn.id)):
+                if not rest:
+                    raise AnalysisError(
+                        'UNRECOGNISED-IDIOM %s: `%s` in the test `%s` is only '
+                        'defined when a timeout is given' % (f.where, x.id,
+                                                             short(atom, 60)))
+                mapping[x.id] = rest[0]
     return substitute(atom, mapping) if mapping else atom
+
+
+def _const_atom(atom):
+    """truth of a test over constants only (what `_timeout_view` leaves of a
+    test on a deadline that was not computed): True / False / None"""
+    if isinstance(atom, ast.Constant):
+        return bool(atom.value)
+    if isinstance(atom, ast.Compare) and len(atom.ops) == 1 and \
+            isinstance(atom.left, ast.Constant) and \
+            isinstance(atom.comparators[0], ast.Constant):
+        a, b = atom.left.value, atom.comparators[0].value
+        op = atom.ops[0]
+        if isinstance(op, (ast.Is, ast.Eq)) and (a is None or b is None):
+            return a is b
+        if isinstance(op, (ast.IsNot, ast.NotEq)) and (a is None or b is None):
+            return a is not b
+    return None
 
 
 def _timeout_truth(prog, f, g, node, tname, cache, val='pos'):
@@ -660,12 +714,18 @@ def _timeout_truth(prog, f, g, node, tname, cache, val='pos'):
     expired (True / False / None: not about the timeout); predicates extracted
     into helpers are looked into"""
     if node.id not in cache:
-        atom = _timeout_view(f, g, node, tname)
+        atom = _timeout_view(f, g, node, tname, val)
         body = inline_pred(prog, f, atom) if isinstance(atom, ast.Call) \
             else None
         cache[node.id] = atom if body is None else body
-    return truth3(cache[node.id],
-                  lambda x: _timeout_atom(f, x, tname, val))
+
+    def known(x):
+        if val != 'pos':
+            tv = _const_atom(x)
+            if tv is not None:
+                return tv
+        return _timeout_atom(f, x, tname, val)
+    return truth3(cache[node.id], known)
 
 
 SHRINK_CALLS = ('remove', 'pop', 'popleft', 'discard', 'clear',
@@ -2104,6 +2164,1222 @@ def r15_6(prog, rep, rid='R15.6'):
 
 
 # ------------------------------------------------------------------------------
+# R15.7  who wakes a wait that does not poll
+#
+class _Unk(Exception):
+    """an expression the evaluators of R15.7 / R15.8 do not follow"""
+
+
+ENTITY = {'task':  ('task.py',  'Task'),
+          'pilot': ('pilot.py', 'Pilot')}
+EVENT_CTORS = ('Event', 'Condition', 'Semaphore', 'BoundedSemaphore')
+SETTERS = ('set', 'notify', 'notify_all', 'notifyAll', 'release')
+
+
+def _anchor_classes(prog):
+    out = []
+    for rel, cname, mname, what in ANCHORS:
+        c = prog.cls(rel, cname)
+        if c not in out:
+            out.append(c)
+    return out
+
+
+def _methods_of(c):
+    """all functions of a class, nested ones included"""
+    out = []
+
+    def rec(fn):
+        out.append(fn)
+        for x in fn.nested.values():
+            rec(x)
+    for m in c.methods.values():
+        rec(m)
+    return out
+
+
+def _node_root(n):
+    """the expression / simple statement a cfg node evaluates (None for
+    structural nodes: their parts are nodes of their own)"""
+    if n.ast is None:
+        return None
+    if n.kind == 'stmt':
+        if isinstance(n.ast, (ast.FunctionDef, ast.AsyncFunctionDef,
+                              ast.ClassDef)):
+            return None
+        return n.ast
+    if n.kind == 'test':
+        return n.ast
+    if n.kind == 'for':
+        return n.ast.iter
+    return None
+
+
+def _node_of(g, sub):
+    """the cfg node that evaluates the ast node `sub`"""
+    for n in g.nodes:
+        root = _node_root(n)
+        if root is not None and (root is sub or
+                                 any(x is sub for x in walk(root))):
+            return n
+    return None
+
+
+def _is_event_ctor(value):
+    return isinstance(value, ast.Call) and \
+        (dotted(value.func) or '').split('.')[-1] in EVENT_CTORS
+
+
+def _event_attrs(prog):
+    """attributes of the four anchor classes that hold a threading event /
+    condition (`self.<attr> = mt.Event()` in one of their methods)"""
+    out = set()
+    for c in _anchor_classes(prog):
+        for fn in _methods_of(c):
+            for n in walk(fn.node, nested=True):
+                if isinstance(n, ast.Assign) and _is_event_ctor(n.value):
+                    for t in n.targets:
+                        if isinstance(t, ast.Attribute):
+                            out.add(t.attr)
+    return out
+
+
+def _event_of(prog, f, g, recv, at, events, depth=0):
+    """the event a receiver expression denotes: its attribute name for
+    `<path>.<attr>` holding an event, '' for a local event, None: no event"""
+    from ..flow import reaching_defs
+    if isinstance(recv, ast.Attribute):
+        return recv.attr if recv.attr in events else None
+    if isinstance(recv, ast.Name) and depth < 3:
+        out = set()
+        for dn, v in reaching_defs(g, recv.id, at):
+            if v is None:
+                return None
+            out.add('' if _is_event_ctor(v) else
+                    _event_of(prog, f, g, v, dn.id, events, depth + 1))
+        if len(out) == 1:
+            return out.pop()
+    return None
+
+
+def _anchor_by_name(prog):
+    d = {}
+    for rel, cname, mname, what in ANCHORS:
+        d.setdefault(mname, []).append((prog.method(rel, cname, mname), what))
+    return d
+
+
+def _manager_kind(f):
+    for rel, cname, mname, what in ANCHORS:
+        if f.cls is not None and f.cls.name == cname and \
+                f.module.rel == rel and mname != 'wait':
+            return what
+    return None
+
+
+def _delegate_target(prog, f, g, call, at, events):
+    """the wait anchor a call hands the wait over to, or None.  `self.m(..)`
+    is resolved; `<x>.wait_tasks / wait_pilots(..)` is the anchor of that
+    name; `<x>.wait(..)` inside a manager, on something that is not an event,
+    is the wait of the entity this manager manages"""
+    if not isinstance(call.func, ast.Attribute):
+        return None
+    name = call.func.attr
+    byname = _anchor_by_name(prog)
+    if name not in byname:
+        return None
+    anchors = [a for a, w in byname[name]]
+    h = prog.resolve_call(f, call)
+    if h is not None:
+        return h if h in anchors else None
+    if _event_of(prog, f, g, call.func.value, at, events) is not None:
+        return None
+    if any(isinstance(a, ast.Starred) for a in call.args) or \
+            any(k.arg is None for k in call.keywords):
+        return None
+    if len(anchors) == 1:
+        cand = anchors[0]
+    else:
+        kind = _manager_kind(f)
+        if kind is None:
+            return None
+        cand = [a for a, w in byname[name] if w == kind][0]
+    params = cand.params[1:]
+    if len(call.args) > len(params) or \
+            any(k.arg not in params for k in call.keywords):
+        return None
+    return cand
+
+
+def blocking_calls(prog, f, g, events):
+    """[(cfg node, call, kind, event attr, period expr | None)] for every call
+    of the function that blocks the caller: kind 'sleep' (nobody can end it),
+    'event' (ended by `set()` / `notify()`), 'delegate' (another wait anchor)"""
+    out = []
+    for n in g.nodes:
+        root = _node_root(n)
+        if root is None:
+            continue
+        for c in calls_in(root):
+            last = _callee_name(c)
+            if last == 'sleep':
+                per = c.args[0] if c.args else None
+                for k in c.keywords:
+                    if k.arg in ('secs', 'seconds'):
+                        per = k.value
+                out.append((n, c, 'sleep', None, per))
+            elif last == 'wait' and isinstance(c.func, ast.Attribute):
+                ev = _event_of(prog, f, g, c.func.value, n.id, events)
+                if ev is not None:
+                    per = c.args[0] if c.args else None
+                    for k in c.keywords:
+                        if k.arg == 'timeout':
+                            per = k.value
+                    out.append((n, c, 'event', ev, per))
+                elif _delegate_target(prog, f, g, c, n.id, events):
+                    out.append((n, c, 'delegate', None, None))
+                else:
+                    raise AnalysisError(
+                        'UNRECOGNISED-IDIOM %s: `%s` blocks on something that '
+                        'is neither a known event nor a wait anchor'
+                        % (f.where, short(c, 60)))
+            elif last in ('wait_tasks', 'wait_pilots') and \
+                    _delegate_target(prog, f, g, c, n.id, events):
+                out.append((n, c, 'delegate', None, None))
+    return out
+
+
+def _number(v):
+    return isinstance(v, (int, float)) and not isinstance(v, bool)
+
+
+def _bounded(prog, f, g, e, at, seen=()):
+    """is the blocking period `e` bounded by a constant (True) or can it be
+    as long as the caller's timeout / unlimited (False)?  _Unk if unknown"""
+    from ..flow import reaching_defs
+    if e is None:
+        return False
+    if isinstance(e, ast.Constant):
+        if e.value is None:
+            return False
+        if _number(e.value):
+            return True
+        raise _Unk(short(e, 40))
+    if isinstance(e, ast.Name) and (e.id in f.params or
+                                    reaching_defs(g, e.id, at)):
+        key = (e.id, at)
+        if key in seen:
+            return True                      # a cycle adds no new source
+        defs = reaching_defs(g, e.id, at)
+        res = []
+        if e.id in f.params:
+            dn = [d.id for d, v in defs]
+            if not dn or at in g.reachable(g.entry.id, skip_nodes=set(dn)):
+                if e.id != 'timeout':
+                    raise _Unk('parameter `%s`' % e.id)
+                res.append(False)            # as long as the caller likes
+        for dn, val in defs:
+            if val is None:
+                if dn.kind == 'stmt' and isinstance(dn.ast, ast.AugAssign):
+                    res.append(_bounded(prog, f, g, dn.ast.value, dn.id,
+                                        seen + (key,)) and
+                               _bounded(prog, f, g, e, dn.id, seen + (key,)))
+                    continue
+                raise _Unk(e.id)
+            res.append(_bounded(prog, f, g, val, dn.id, seen + (key,)))
+        return all(res)
+    if not isinstance(e, ast.Call):
+        v = prog.fold(f.module, e, f.cls)
+        if v is not UNKNOWN and _number(v):
+            return True
+        if isinstance(e, (ast.Name, ast.Attribute)):
+            raise _Unk(short(e, 40))
+    if isinstance(e, ast.Call) and isinstance(e.func, ast.Name) and \
+            not e.keywords:
+        if e.func.id == 'min' and len(e.args) >= 2:
+            res = []
+            for a in e.args:
+                try:
+                    res.append(_bounded(prog, f, g, a, at, seen))
+                except _Unk:
+                    res.append(False)
+            return any(res)
+        if e.func.id == 'max' and len(e.args) >= 2:
+            return all(_bounded(prog, f, g, a, at, seen) for a in e.args)
+        if e.func.id in ('float', 'int', 'abs', 'round') and e.args:
+            return _bounded(prog, f, g, e.args[0], at, seen)
+    if isinstance(e, ast.Call):
+        body = inline_pred(prog, f, e)
+        if body is not None:
+            return _bounded(prog, f, g, body, at, seen)
+        if clock_of(prog, f, e, f.module.local_imports(f.node)):
+            return False
+        raise _Unk(short(e, 40))
+    if isinstance(e, ast.BinOp):
+        return _bounded(prog, f, g, e.left, at, seen) and \
+            _bounded(prog, f, g, e.right, at, seen)
+    if isinstance(e, ast.UnaryOp):
+        return _bounded(prog, f, g, e.operand, at, seen)
+    if isinstance(e, ast.IfExp):
+        return _bounded(prog, f, g, e.body, at, seen) and \
+            _bounded(prog, f, g, e.orelse, at, seen)
+    if isinstance(e, ast.BoolOp):
+        return all(_bounded(prog, f, g, x, at, seen) for x in e.values)
+    raise _Unk(short(e, 40))
+
+
+def _is_set_call(c, ev, h=None, g=None, at=None):
+    """`<path>.<ev>.set()` / notify..(); a local alias of the event counts"""
+    from ..flow import reaching_defs
+    if not (isinstance(c.func, ast.Attribute) and c.func.attr in SETTERS):
+        return False
+    r = c.func.value
+    if isinstance(r, ast.Attribute):
+        return r.attr == ev
+    if isinstance(r, ast.Name) and g is not None:
+        defs = reaching_defs(g, r.id, at)
+        return bool(defs) and all(
+            isinstance(v, ast.Attribute) and v.attr == ev for d, v in defs)
+    return False
+
+
+def _setters(prog, cls, ev):
+    """names of the methods of the class which themselves call
+    `<path>.<ev>.set()`"""
+    cache = prog.__dict__.setdefault('_c15_setters', {})
+    key = (cls.where, ev)
+    if key not in cache:
+        cache[key] = {
+            m.name for c in prog.mro(cls) for m in c.methods.values()
+            if any(_is_set_call(x, ev) for x in calls_in(m.node))}
+    return cache[key]
+
+
+def _node_sets(prog, h, g, n, ev, depth=0):
+    """the statement of cfg node n sets the event (itself, or by calling a
+    method of the class that does so on each of its normal paths)"""
+    root = _node_root(n)
+    if root is None:
+        return False
+    for c in calls_in(root):
+        if _is_set_call(c, ev, h, g, n.id):
+            return True
+        if depth < 1 and h.cls is not None and \
+                isinstance(c.func, ast.Attribute) and \
+                c.func.attr in _setters(prog, h.cls, ev):
+            m = prog.resolve_call(h, c)
+            if m is not None and m is not h and _must_set(prog, m, ev):
+                return True
+    return False
+
+
+def _must_set(prog, m, ev):
+    """every path through method m that returns normally sets the event"""
+    g = cfg_of(m)
+    via = {n.id for n in g.nodes if _node_sets(prog, m, g, n, ev, 1)}
+    if not via:
+        return False
+    labels = {'next', 'T', 'F', 'iter', 'done'}
+    return g.exit.id not in g.reachable(g.entry.id, skip_nodes=via,
+                                        labels=labels)
+
+
+NONEMPTY_CALLS = ('append', 'add', 'insert', 'appendleft', 'put')
+EMPTYING_CALLS = ('clear', 'pop', 'popleft', 'remove', 'discard')
+
+
+def _unwoken_path(prog, h, g, start, ev):
+    """a path from cfg node `start` (a write of the awaited state) to the
+    normal exit of the function on which the event is not set: witness
+    literals, or None.  Exceptions after the write are not followed.  A local
+    that was appended to / set to a true constant after the write is known to
+    be true when tested (`if to_notify: evt.set()`)."""
+    sets = {n.id for n in g.nodes if _node_sets(prog, h, g, n, ev)}
+
+    def truthy_const(v):
+        if isinstance(v, ast.Constant):
+            return bool(v.value)
+        if isinstance(v, (ast.List, ast.Tuple, ast.Set)):
+            return bool(v.elts)
+        return False
+
+    def transfer(node, edge, st):
+        if edge.label == 'exc':
+            return None
+        if node.id in sets and node.id != start:
+            return None                      # woken: this path is fine
+        a = node.ast
+        if node.kind == 'test' and edge.label in 'TF':
+            x = None
+            if isinstance(a, ast.Name):
+                x = a.id
+            elif isinstance(a, ast.Call) and dotted(a.func) in ('len', 'bool') \
+                    and len(a.args) == 1 and isinstance(a.args[0], ast.Name):
+                x = a.args[0].id
+            if x is not None and x in st and edge.label == 'F':
+                return None
+            return st
+        if node.kind == 'for':
+            return st - set(stores_in_target(a.target))
+        if node.kind != 'stmt' or a is None:
+            return st
+        if isinstance(a, ast.Assign):
+            for t in a.targets:
+                for name in stores_in_target(t):
+                    st = (st | {name}) if isinstance(t, ast.Name) and \
+                        truthy_const(a.value) else (st - {name})
+            return st
+        if isinstance(a, ast.AugAssign) and isinstance(a.target, ast.Name):
+            if isinstance(a.op, ast.Add) and truthy_const(a.value):
+                return st | {a.target.id}
+            return st - {a.target.id} if not isinstance(a.op, ast.Add) else st
+        for c in calls_in(a):
+            if isinstance(c.func, ast.Attribute) and \
+                    isinstance(c.func.value, ast.Name):
+                if c.func.attr in NONEMPTY_CALLS:
+                    st = st | {c.func.value.id}
+                elif c.func.attr in EMPTYING_CALLS:
+                    st = st - {c.func.value.id}
+        return st
+
+    ex = Exploration(g, start, frozenset(), transfer)
+    for t in ex.terminals:
+        if t.node == g.exit.id:
+            return ex.literals(t)
+    return None
+
+
+def _callers_wake(prog, h, ev, depth=0):
+    """the event is set after every call of method h by its callers (and h
+    is not handed out as a callback)"""
+    if h.cls is None or depth > 1:
+        return False
+    sites = []
+    for fn in _methods_of(h.cls):
+        for n in walk(fn.node, nested=False):
+            if isinstance(n, ast.Attribute) and n.attr == h.name and \
+                    isinstance(n.value, ast.Name) and n.value.id == 'self':
+                sites.append((fn, n))
+    if not sites:
+        return False
+    for fn, ref in sites:
+        g = cfg_of(fn)
+        node = None
+        for n in g.nodes:
+            root = _node_root(n)
+            if root is not None and any(c.func is ref
+                                        for c in calls_in(root)):
+                node = n
+        if node is None:
+            return False                      # handed out, not called
+        if _unwoken_path(prog, fn, g, node.id, ev) is not None and \
+                not _callers_wake(prog, fn, ev, depth + 1):
+            return False
+    return True
+
+
+def _state_unchanged(h, g, node, call):
+    """the call `<x>._update(d)` is control dependent on `<x>.state == d['state']`
+    (both read into locals that are not re-bound): it does not change the
+    state"""
+    from ..flow import reaching_defs, guards
+    if not call.args or not isinstance(call.args[0], ast.Name):
+        return False
+    recv = unparse(call.func.value)
+    arg = call.args[0].id
+    for t, lab in guards(g, node.id):
+        a = g.nodes[t].ast
+        if lab != 'T' or not (isinstance(a, ast.Compare) and len(a.ops) == 1
+                              and isinstance(a.ops[0], ast.Eq)):
+            continue
+        sides = []
+        for x in (a.left, a.comparators[0]):
+            if isinstance(x, ast.Name):
+                defs = reaching_defs(g, x.id, t)
+                if len(defs) != 1 or defs[0][1] is None or \
+                        [d.id for d, v in reaching_defs(g, x.id, node.id)] != \
+                        [defs[0][0].id]:
+                    sides.append(None)
+                    continue
+                x = defs[0][1]
+            sides.append(x)
+        kinds = set()
+        for x in sides:
+            if isinstance(x, ast.Attribute) and x.attr in STATE_ATTRS and \
+                    unparse(x.value) == recv:
+                kinds.add('cur')
+            elif isinstance(x, ast.Subscript) and \
+                    isinstance(x.value, ast.Name) and x.value.id == arg and \
+                    isinstance(x.slice, ast.Constant) and \
+                    x.slice.value == 'state':
+                kinds.add('new')
+        if kinds == {'cur', 'new'}:
+            return True
+    return False
+
+
+def state_writers(prog, f, what):
+    """[(function, cfg, cfg node, ast, text)]: the places which change the
+    state the wait anchor f looks at.  For a manager: every `<x>._update(..)`
+    on something else than `self` in the manager class (the set R06.2 / R14.2
+    enumerate); for Task.wait / Pilot.wait: every write of `self._state` in
+    the entity class outside __init__."""
+    out = []
+    manager = _manager_kind(f) is not None
+    for h in _methods_of(f.cls):
+        sites = []
+        for n in walk(h.node, nested=False):
+            if manager:
+                if isinstance(n, ast.Call) and \
+                        isinstance(n.func, ast.Attribute) and \
+                        n.func.attr == '_update' and \
+                        unparse(n.func.value) != 'self' and \
+                        not unparse(n.func.value).startswith('super'):
+                    sites.append(n)
+            elif h.name != '__init__':
+                if isinstance(n, ast.Call) and dotted(n.func) == 'setattr' \
+                        and len(n.args) == 3 and unparse(n.args[0]) == 'self' \
+                        and not (isinstance(n.args[1], ast.Constant) and
+                                 n.args[1].value not in ('_state', 'state')):
+                    sites.append(n)
+                if isinstance(n, (ast.Assign, ast.AugAssign, ast.AnnAssign)):
+                    tg = n.targets if isinstance(n, ast.Assign) else [n.target]
+                    if any(isinstance(x, ast.Attribute) and x.attr == '_state'
+                           and unparse(x.value) == 'self'
+                           for t in tg for x in walk(t)):
+                        sites.append(n)
+        if not sites:
+            continue
+        g = cfg_of(h)
+        for s in sites:
+            node = _node_of(g, s)
+            if node is None:
+                raise AnalysisError('UNRECOGNISED-IDIOM %s: no cfg node for '
+                                    'the state write `%s`' % (h.where,
+                                                              short(s, 50)))
+            if manager and _state_unchanged(h, g, node, s):
+                continue
+            out.append((h, g, node, s))
+    return out
+
+
+def _reads_state(prog, f, n):
+    root = _node_root(n)
+    if root is None:
+        return False
+    if reads_state_attr(root):
+        return True
+    for c in calls_in(root):
+        m = prog.resolve_call(f, c)
+        if m is not None and reads_state_attr(m.node):
+            return True
+    return False
+
+
+def _clear_reaches_wait(prog, f, g, clear_id, wait_id, body):
+    """a path inside the loop from the clear() of the event to the blocking
+    wait on which the entity states are not read (a `for` loop is taken to
+    run at least once: the awaited entities are not an empty list)"""
+    rd = {x.id for x in g.nodes if x.id in body and _reads_state(prog, f, x)}
+
+    def transfer(node, edge, st):
+        if edge.label == 'exc':
+            return None
+        if node.id in rd and node.id != clear_id:
+            return None
+        if node.kind == 'for':
+            if edge.label == 'iter':
+                return st | {node.id}
+            if edge.label == 'done' and node.id not in st:
+                return None
+        return st
+    ex = Exploration(g, clear_id, frozenset(), transfer,
+                     stop=lambda nid: nid == wait_id or nid not in body)
+    for t in ex.terminals:
+        if t.node == wait_id:
+            return ex.literals(t)
+    return None
+
+
+def r15_7(prog, rep, rid='R15.7'):
+    rep.rule(rid, 'a wait either polls (blocks for a period bounded by a '
+             'constant) or blocks on an event that every writer of the '
+             'awaited state sets afterwards', minimum=4)
+    events = _event_attrs(prog)
+    for rel, cname, mname, what in ANCHORS:
+        f = prog.method(rel, cname, mname)
+        rep.saw(f)
+        g = cfg_of(f)
+        blocks = blocking_calls(prog, f, g, events)
+        if not blocks:
+            raise AnalysisError('UNRECOGNISED-IDIOM %s: the wait neither '
+                                'sleeps, nor waits on an event, nor hands over '
+                                'to another wait' % f.where)
+        asked = 'DONE' if what == 'task' else 'PMGR_ACTIVE'
+        for n, c, kind, ev, per in blocks:
+            if kind == 'delegate':
+                rep.ok(rid, f, '%s: `%s` hands the wait over to another wait '
+                       'anchor (R15.8)' % (f.qual, short(c, 50)), f.loc(c))
+                continue
+            try:
+                bounded = _bounded(prog, f, g, per, n.id)
+            except _Unk as e:
+                raise AnalysisError(
+                    'UNRECOGNISED-IDIOM %s: cannot tell whether the period of '
+                    '`%s` is bounded by a constant (%s)' % (f.where,
+                                                            short(c, 60), e))
+            if bounded:
+                rep.ok(rid, f, '%s: `%s` blocks for a period bounded by a '
+                       'constant: the states are polled' % (f.qual,
+                                                            short(c, 50)),
+                       f.loc(c))
+                continue
+            if kind == 'sleep' or ev == '':
+                rep.bad(rid, f, 'unbounded %s' % ('sleep' if kind == 'sleep'
+                                                  else 'wait on a local event'),
+                        '%s: `%s` blocks for a period that is not bounded by '
+                        'a constant (it is derived from the timeout) and '
+                        'nothing can end it early: the %s states are not '
+                        'looked at again before the period is over'
+                        % (f.qual, short(c, 60), what), f.loc(c),
+                        history='%s.%s(rps.%s, timeout=600) and the %s reaches '
+                        'the state after one second: the call returns after '
+                        'ten minutes' % (cname, mname, asked, what))
+                continue
+            # event driven: every writer of the awaited state must set `ev`
+            writers = state_writers(prog, f, what)
+            if not writers:
+                raise AnalysisError('UNRECOGNISED-IDIOM %s: no writer of the '
+                                    '%s state found for the event driven wait'
+                                    % (f.where, what))
+            # a writer of the entity class may wake for all callers
+            ent = prog.cls(*ENTITY[what])
+            upd = ent.methods.get('_update')
+            in_update = False
+            if _manager_kind(f) and upd is not None:
+                ug = cfg_of(upd)
+                uw = state_writers(prog, upd, what)
+                in_update = bool(uw) and all(
+                    _unwoken_path(prog, h2, g2, n2.id, ev) is None
+                    for h2, g2, n2, s2 in uw if h2 is upd)
+            for h, hg, wn, s in writers:
+                rep.saw(h)
+                wit = None
+                if not in_update:
+                    wit = _unwoken_path(prog, h, hg, wn.id, ev)
+                    if wit is not None and _callers_wake(prog, h, ev):
+                        wit = None
+                text = '%s: the write of the %s state `%s` is followed by ' \
+                       '`%s.set()` on every path (wakes %s)' \
+                       % (h.qual, what, short(s, 40), ev, f.qual)
+                if wit is None:
+                    rep.ok(rid, h, text, h.loc(s))
+                    continue
+                rep.bad(rid, h, s,
+                        '%s blocks in `%s` until the event `%s` is set (the '
+                        'period is the remaining timeout, or unlimited '
+                        'without one), but %s changes %s states through `%s` '
+                        'and returns without setting `%s`: a waiter is not '
+                        'woken although the %s(s) it waits for reached the '
+                        'awaited (or a final) state by this write'
+                        % (f.qual, short(c, 60), ev, h.qual, what,
+                           short(s, 50), ev, what), h.loc(s),
+                        history='%s.%s() without timeout is pending; the '
+                        'state of the last awaited %s is then written by '
+                        '%s: the states are what was awaited, nobody sets '
+                        '`%s`, the call never returns'
+                        % (cname, mname, what, h.qual, ev), path=wit)
+            # lost wake-up: clear() must come before the states are looked at
+            loops = [hd for hd in n.loops if hd in g.loop_body]
+            body = set()
+            for hd in loops:
+                body |= g.loop_body[hd] | {hd}
+            for cn in g.nodes:
+                root = _node_root(cn)
+                if cn.id not in body or root is None:
+                    continue
+                clr = [x for x in calls_in(root)
+                       if isinstance(x.func, ast.Attribute) and
+                       x.func.attr == 'clear' and
+                       _event_of(prog, f, g, x.func.value, cn.id,
+                                 events) == ev]
+                if not clr:
+                    continue
+                wit = _clear_reaches_wait(prog, f, g, cn.id, n.id, body)
+                rep.check(wit is None, rid, f,
+                          '%s: after `%s` the states are read again before '
+                          'the wait blocks' % (f.qual, short(clr[0], 40)),
+                          construct='clear before wait: %s' % short(clr[0], 40),
+                          message='%s: `%s` can be followed by `%s` without '
+                          'the %s states being read in between: a state '
+                          'change (and its `set()`) that arrives after the '
+                          'states were checked and before the clear is wiped '
+                          'out, and the wait then blocks although all awaited '
+                          '%ss are in the awaited state'
+                          % (f.qual, short(clr[0], 40), short(c, 50), what,
+                             what), loc=f.loc(clr[0]),
+                          history='%s.%s() without timeout: the last awaited '
+                          '%s becomes final between the check of the states '
+                          'and the clear(); the call never returns'
+                          % (cname, mname, what), path=wit)
+
+
+# ------------------------------------------------------------------------------
+# R15.8  a wait that hands over to another wait hands over its timeout
+#
+SIGNS = ('neg', 'zero', 'pos')
+ALLNUM = frozenset(SIGNS)
+
+
+def _sign(v):
+    return 'zero' if v == 0 else ('pos' if v > 0 else 'neg')
+
+
+def _neg(s):
+    return frozenset({'neg': 'pos', 'pos': 'neg'}.get(x, x) for x in s)
+
+
+def _add(a, b):
+    out = set()
+    for x in a:
+        for y in b:
+            if x == 'zero':
+                out.add(y)
+            elif y == 'zero' or x == y:
+                out.add(x)
+            else:
+                out |= ALLNUM
+    return frozenset(out)
+
+
+def _mul(a, b):
+    out = set()
+    for x in a:
+        for y in b:
+            out.add('zero' if 'zero' in (x, y) else
+                    ('pos' if x == y else 'neg'))
+    return frozenset(out)
+
+
+def _minmax(sets, lo):
+    """sign of min (lo) / max of numbers with the given sign sets"""
+    order = SIGNS if lo else SIGNS[::-1]
+    out = set()
+
+    def rec(i, cur):
+        if i == len(sets):
+            out.add(cur)
+            return
+        for x in sets[i]:
+            rec(i + 1, x if cur is None or order.index(x) < order.index(cur)
+                else cur)
+    rec(0, None)
+    return frozenset(out)
+
+
+def _restrict(vals, op, c, want):
+    """the values of `vals` for which `<value> op c` is `want` for some number
+    of that sign (None never survives an ordering test)"""
+    out = set()
+    for v in vals:
+        if v == 'none':
+            if isinstance(op, (ast.Eq, ast.NotEq)):
+                if isinstance(op, ast.NotEq) == want:
+                    out.add(v)
+            continue
+        tv = _sign_cmp(v, op, c)
+        if tv is None or tv == want:
+            out.add(v)
+    return frozenset(out)
+
+
+class TimeoutVals:
+    """what a function hands down as timeout, as a set of {'none', 'neg',
+    'zero', 'pos'}, under the assumption that its own timeout parameters were
+    given (are positive numbers).  Names are followed to the definitions that
+    reach the use on paths that are feasible under that assumption, and the
+    result is narrowed by the tests on that name which dominate the use."""
+
+    def __init__(self, prog, f, g, tparams):
+        from ..flow import guards
+        self.prog, self.f, self.g = prog, f, g
+        self.tparams = set(tparams)
+        self.limports = f.module.local_imports(f.node)
+        self.clock = False
+        # edges that are not taken when the timeout parameters are given
+        self.dead = []
+        for n in g.nodes:
+            if n.kind != 'test':
+                continue
+            tv = self._given(n.ast)
+            if tv is not None:
+                self.dead.append((n.id, 'F' if tv else 'T'))
+        self.live = g.reachable(g.entry.id, skip_edges=self.dead)
+        self._guards = {}
+        self.memo = {}
+        self.active = set()
+        self.changed = False
+
+    def _given(self, atom):
+        """truth of a test on a timeout parameter that was given"""
+        if isinstance(atom, ast.Name) and atom.id in self.tparams and \
+                not self._rebound(atom.id):
+            return True
+        if isinstance(atom, ast.Compare) and len(atom.ops) == 1 and \
+                isinstance(atom.left, ast.Name) and \
+                atom.left.id in self.tparams and \
+                not self._rebound(atom.left.id) and \
+                isinstance(atom.comparators[0], ast.Constant):
+            c, op = atom.comparators[0].value, atom.ops[0]
+            if c is None:
+                if isinstance(op, (ast.Is, ast.Eq)):
+                    return False
+                if isinstance(op, (ast.IsNot, ast.NotEq)):
+                    return True
+            elif _number(c):
+                return _sign_cmp('pos', op, c)
+        return None
+
+    def _rebound(self, name):
+        return any(name in stores_of(n) for n in self.g.nodes)
+
+    def guards_of(self, at):
+        """branch edges every feasible path from the entry to `at` takes
+        (control dependence with polarity, over the paths that exist when a
+        timeout is given)"""
+        if at not in self._guards:
+            g = self.g
+            out = []
+            for n in g.nodes:
+                if n.kind != 'test' or n.id not in self.live:
+                    continue
+                for lab in ('T', 'F'):
+                    if (n.id, lab) in self.dead:
+                        continue
+                    r = g.reachable(g.entry.id,
+                                    skip_edges=self.dead + [(n.id, lab)])
+                    if at not in r:
+                        out.append((n.id, lab))
+            self._guards[at] = out
+        return self._guards[at]
+
+    def _defs(self, name, at):
+        """(definitions of `name` that reach `at`, does the value the name has
+        on entry reach `at`) - on paths feasible when a timeout is given"""
+        g = self.g
+        ids = {n.id for n in g.nodes if name in stores_of(n)}
+        skip = ids - {at}
+        out = []
+        for d in sorted(ids):
+            if d not in self.live:
+                continue
+            r = set()
+            for e in g.succ[d]:
+                if e.label == 'exc':
+                    continue
+                if e.dst == at:
+                    r.add(at)
+                elif e.dst not in skip:
+                    r |= g.reachable(e.dst, skip_nodes=skip,
+                                     skip_edges=self.dead)
+            if at in r:
+                out.append(g.nodes[d])
+        entry = at in g.reachable(g.entry.id, skip_nodes=skip,
+                                  skip_edges=self.dead)
+        return out, entry
+
+    def _narrow(self, name, vals, src, at):
+        """the values that survive the tests on `name` which every feasible
+        path from its definition `src` (a cfg node id; None: the value on
+        entry) to the use `at` takes, no other definition in between"""
+        g = self.g
+        ids = {n.id for n in g.nodes if name in stores_of(n)}
+        skip = ids - {at}
+        if src is None:
+            starts = [g.entry.id]
+        else:
+            starts = [e.dst for e in g.succ[src] if e.label != 'exc']
+            if at in starts:
+                return vals
+            starts = [x for x in starts if x not in skip]
+        for tn in g.nodes:
+            if tn.kind != 'test':
+                continue
+            a = tn.ast
+            if isinstance(a, ast.Name) and a.id == name:
+                kind = ('truth', None, None)
+            elif isinstance(a, ast.Compare) and len(a.ops) == 1 and \
+                    isinstance(a.left, ast.Name) and a.left.id == name and \
+                    isinstance(a.comparators[0], ast.Constant):
+                kind = ('cmp', a.ops[0], a.comparators[0].value)
+            else:
+                continue
+            lab = None
+            for x in ('T', 'F'):
+                if (tn.id, x) in self.dead:
+                    continue
+                r = g.reachable(starts, skip_nodes=skip,
+                                skip_edges=self.dead + [(tn.id, x)])
+                if at not in r:
+                    lab = x
+            if lab is None:
+                continue
+            want = lab == 'T'
+            if kind[0] == 'truth':
+                keep = {'pos', 'neg'} if want else {'none', 'zero'}
+                vals = frozenset(v for v in vals if v in keep)
+            else:
+                op, c = kind[1], kind[2]
+                if c is None:
+                    if isinstance(op, (ast.Is, ast.Eq)):
+                        isn = want
+                    elif isinstance(op, (ast.IsNot, ast.NotEq)):
+                        isn = not want
+                    else:
+                        continue
+                    vals = frozenset(v for v in vals if (v == 'none') == isn)
+                elif _number(c):
+                    vals = _restrict(vals, op, c, want)
+        return vals
+
+    def _related(self, l, r, at):
+        """sign of l - r known from a dominating comparison of the same two
+        (call free, not re-bound) operands: set of signs or None"""
+        if calls_in(l) or calls_in(r):
+            return None
+        g = self.g
+        names = {x.id for e in (l, r) for x in walk(e)
+                 if isinstance(x, ast.Name)}
+        ids = {n.id for n in g.nodes if set(stores_of(n)) & names}
+        tl, tr = unparse(l), unparse(r)
+        res = None
+        for t, lab in self.guards_of(at):
+            a = g.nodes[t].ast
+            if not (isinstance(a, ast.Compare) and len(a.ops) == 1):
+                continue
+            al, ar = unparse(a.left), unparse(a.comparators[0])
+            if (al, ar) == (tl, tr):
+                flip = False
+            elif (al, ar) == (tr, tl):
+                flip = True
+            else:
+                continue
+            starts = [e.dst for e in g.succ[t] if e.label == lab]
+            between = g.reachable(starts, skip_nodes={t},
+                                  skip_edges=self.dead) if starts else set()
+            if any(d in between and at in g.reachable(
+                    [e.dst for e in g.succ[d] if e.label != 'exc'],
+                    skip_nodes={t}, skip_edges=self.dead)
+                    for d in ids if d != at):
+                continue
+            # l - r  <op> 0
+            s = _restrict(ALLNUM, a.ops[0], 0, lab == 'T')
+            if flip:
+                s = _neg(s)
+            res = s if res is None else (res & s)
+        return res
+
+    def name(self, x, at):
+        key = (x, at)
+        if key in self.active:
+            return self.memo.get(key, frozenset())
+        self.active.add(key)
+        defs, entry = self._defs(x, at)
+        vals = frozenset()
+        if entry:
+            if x in self.tparams:
+                vals |= self._narrow(x, frozenset({'pos'}), None, at)
+            else:
+                raise _Unk('`%s` is not defined by the function' % x)
+        for dn in defs:
+            a = dn.ast
+            if dn.kind == 'stmt' and isinstance(a, (ast.Assign, ast.AnnAssign)) \
+                    and a.value is not None:
+                tg = a.targets if isinstance(a, ast.Assign) else [a.target]
+                if not all(isinstance(t, ast.Name) for t in tg):
+                    raise _Unk('`%s` is bound by `%s`' % (x, short(a, 40)))
+                v = self.expr(a.value, dn.id)
+            elif dn.kind == 'stmt' and isinstance(a, ast.AugAssign) and \
+                    isinstance(a.target, ast.Name):
+                v = self.binop(a.op, self.name(x, dn.id),
+                               self.expr(a.value, dn.id), None, None, dn.id)
+            else:
+                raise _Unk('`%s` is bound by `%s`' % (x, short(a, 40)))
+            vals |= self._narrow(x, frozenset(v), dn.id, at)
+        self.active.discard(key)
+        if self.memo.get(key) != vals:
+            self.changed = True
+        self.memo[key] = vals
+        return vals
+
+    def binop(self, op, a, b, l, r, at):
+        a = frozenset(a) - {'none'}
+        b = frozenset(b) - {'none'}
+        if isinstance(op, ast.Add):
+            return _add(a, b)
+        if isinstance(op, ast.Sub):
+            out = _add(a, _neg(b))
+            if l is not None:
+                rel = self._related(l, r, at)
+                if rel is not None:
+                    out = out & rel
+            return out
+        if isinstance(op, ast.Mult):
+            return _mul(a, b)
+        if isinstance(op, (ast.Div, ast.FloorDiv)):
+            out = _mul(a, b - {'zero'})
+            if isinstance(op, ast.FloorDiv) and 'pos' in out:
+                out = out | {'zero'}
+            return out
+        raise _Unk('operator of `%s`' % type(op).__name__)
+
+    def expr(self, e, at):
+        if isinstance(e, ast.Constant):
+            if e.value is None:
+                return frozenset({'none'})
+            if isinstance(e.value, (int, float)):
+                return frozenset({_sign(e.value)})
+            raise _Unk(short(e, 40))
+        if isinstance(e, ast.Name):
+            return self.name(e.id, at)
+        if isinstance(e, ast.BinOp):
+            return self.binop(e.op, self.expr(e.left, at),
+                              self.expr(e.right, at), e.left, e.right, at)
+        if isinstance(e, ast.UnaryOp) and isinstance(e.op, ast.USub):
+            return _neg(self.expr(e.operand, at))
+        if isinstance(e, ast.IfExp):
+            tv = self._given(e.test)
+            out = frozenset()
+            if tv is not False:
+                out |= self.expr(e.body, at)
+            if tv is not True:
+                out |= self.expr(e.orelse, at)
+            return out
+        if isinstance(e, ast.BoolOp) and isinstance(e.op, ast.Or):
+            out = frozenset()
+            for i, v in enumerate(e.values):
+                s = self.expr(v, at)
+                if i < len(e.values) - 1:
+                    out |= s - {'none', 'zero'}
+                    if not (s & {'none', 'zero'}):
+                        return out
+                else:
+                    out |= s
+            return out
+        if isinstance(e, ast.Call):
+            if clock_of(self.prog, self.f, e, self.limports):
+                self.clock = True
+                return frozenset({'pos'})
+            fn = e.func.id if isinstance(e.func, ast.Name) else None
+            if fn in ('min', 'max') and len(e.args) >= 2 and not e.keywords:
+                sets = [self.expr(a, at) - {'none'} for a in e.args]
+                if all(sets):
+                    return _minmax(sets, fn == 'min')
+            if fn in ('float', 'abs', 'int', 'round') and len(e.args) >= 1 \
+                    and not e.keywords:
+                s = self.expr(e.args[0], at) - {'none'}
+                if fn == 'abs':
+                    s = frozenset('pos' if x == 'neg' else x for x in s)
+                if fn in ('int', 'round') and s & {'pos', 'neg'}:
+                    s = s | {'zero'}
+                return s
+            body = inline_pred(self.prog, self.f, e)
+            if body is not None:
+                return self.expr(body, at)
+            val = self.prog.fold(self.f.module, e, self.f.cls)
+            if val is not UNKNOWN and _number(val):
+                return frozenset({_sign(val)})
+            raise _Unk('call `%s`' % short(e, 40))
+        val = self.prog.fold(self.f.module, e, self.f.cls)
+        if val is None:
+            return frozenset({'none'})
+        if val is not UNKNOWN and _number(val):
+            return frozenset({_sign(val)})
+        raise _Unk('`%s`' % short(e, 40))
+
+    def values(self, e, at):
+        """fixpoint (definitions inside loops refer to each other)"""
+        for i in range(12):
+            self.changed = False
+            self.active = set()
+            out = self.expr(e, at)
+            if not self.changed:
+                return out
+        raise _Unk('no fixpoint for `%s`' % short(e, 40))
+
+
+def _closure_names(f, g, e, at):
+    """parameters of f and clock reads the expression is computed from
+    (syntactic closure over the definitions that reach the use)"""
+    from ..flow import reaching_defs
+    params, seen = set(), set()
+    todo = [(e, at)]
+    while todo:
+        x, n = todo.pop()
+        for nm in walk(x, nested=True):
+            if not (isinstance(nm, ast.Name) and isinstance(nm.ctx, ast.Load)):
+                continue
+            if (nm.id, n) in seen:
+                continue
+            seen.add((nm.id, n))
+            defs = reaching_defs(g, nm.id, n)
+            if nm.id in f.params:
+                params.add(nm.id)
+            for dn, v in defs:
+                if v is not None:
+                    todo.append((v, dn.id))
+                elif dn.kind == 'stmt' and isinstance(dn.ast, ast.AugAssign):
+                    todo.append((dn.ast.value, dn.id))
+                    todo.append((dn.ast.target, dn.id))
+    return params
+
+
+def _timeout_of_call(anchor, call, tname='timeout'):
+    """the expression a call passes as `timeout` of the anchor (None: not
+    passed)"""
+    for k in call.keywords:
+        if k.arg == tname:
+            return k.value
+    params = anchor.params[1:]
+    if tname in params and params.index(tname) < len(call.args):
+        return call.args[params.index(tname)]
+    return None
+
+
+def _ignores_timeout(prog, anchor, sign, cache):
+    """does the wait anchor run on after a timeout of the given sign has
+    expired?  (witness | None)"""
+    key = (anchor.where, sign)
+    if key not in cache:
+        g = cfg_of(anchor)
+        head = wait_loop(anchor, g)
+        wit, n = loop_has_infinite_path(prog, anchor, g, head, 'timeout',
+                                        _final(prog), 'timeout', tval=sign)
+        cache[key] = wit
+    return cache[key]
+
+
+def r15_8(prog, rep, rid='R15.8'):
+    rep.rule(rid, 'a wait that hands over to another wait anchor passes a '
+             'timeout which that anchor understands as a timeout whenever '
+             'the caller was given one (no None, no 0 where 0 means "no '
+             'timeout"), and inside a loop one that shrinks with the time '
+             'used up', minimum=2)
+    events = _event_attrs(prog)
+    names = set(_anchor_by_name(prog))
+    own = {prog.method(rel, c, m).where: (c, m, what)
+           for rel, c, m, what in ANCHORS}
+    cache = {}
+    for cls in _anchor_classes(prog):
+        for f in _methods_of(cls):
+            cands = [c for c in calls_in(f.node)
+                     if isinstance(c.func, ast.Attribute) and
+                     c.func.attr in names]
+            if not cands:
+                continue
+            g = cfg_of(f)
+            for c in cands:
+                node = _node_of(g, c)
+                if node is None:
+                    continue
+                tgt = _delegate_target(prog, f, g, c, node.id, events)
+                if tgt is None:
+                    continue
+                rep.saw(f)
+                texpr = _timeout_of_call(tgt, c)
+                is_anchor = f.where in own and 'timeout' in f.params
+                if texpr is None:
+                    tparams = {'timeout'} if is_anchor else set()
+                else:
+                    tparams = _closure_names(f, g, texpr, node.id)
+                    if is_anchor:
+                        tparams &= {'timeout'}
+                        tparams.add('timeout')
+                if not tparams:
+                    if texpr is not None:
+                        rep.ok(rid, f, '%s: `%s` passes a timeout of its own'
+                               % (f.qual, short(c, 50)), f.loc(c))
+                    continue                 # the caller has no timeout
+                tv = TimeoutVals(prog, f, g, tparams)
+                if node.id not in tv.live:
+                    rep.ok(rid, f, '%s: `%s` is not reached when a timeout is '
+                           'given' % (f.qual, short(c, 50)), f.loc(c))
+                    continue
+                try:
+                    vals = tv.values(texpr, node.id) if texpr is not None \
+                        else frozenset({'none'})
+                except _Unk as e:
+                    raise AnalysisError(
+                        'UNRECOGNISED-IDIOM %s: the timeout `%s` handed to '
+                        '%s is computed in a way the evaluator does not '
+                        'follow (%s)' % (f.where, short(texpr, 40), tgt.qual,
+                                         e))
+                if not vals:
+                    raise AnalysisError(
+                        'UNRECOGNISED-IDIOM %s: no value of the timeout `%s` '
+                        'handed to %s survives the tests in front of the call'
+                        % (f.where, short(texpr, 40), tgt.qual))
+                tn = sorted(tparams)[0]
+                what = own.get(tgt.where, ('', '', 'entity'))[2]
+                shown = short(texpr, 50) if texpr is not None else 'nothing'
+                bad = None
+                if 'none' in vals:
+                    bad = ('none', '%s passes %s as timeout of `%s` on a path '
+                           'on which its own `%s` is given: %s then waits '
+                           'without any timeout' % (f.qual, shown,
+                                                    short(c, 60), tn,
+                                                    tgt.qual))
+                else:
+                    for sign in ('zero', 'neg'):
+                        if sign in vals and _ignores_timeout(prog, tgt, sign,
+                                                             cache):
+                            bad = (sign, '%s can pass %s as timeout of `%s` '
+                                   '(`%s` evaluates to %s when `%s` is given '
+                                   'and used up), but %s treats that value as '
+                                   '"no timeout" (its timeout exit is not '
+                                   'taken for it): the hand-over drops the '
+                                   'timeout' % (
+                                       f.qual, {'zero': '0', 'neg': 'a '
+                                                'negative number'}[sign],
+                                       short(c, 60), shown,
+                                       '/'.join(sorted(vals)), tn, tgt.qual))
+                            break
+                hist = '%s(%s=1.0): the time is used up when `%s` is ' \
+                       'reached (a %s awaited before took it); the %s awaited ' \
+                       'there is not in a requested or final state and stays ' \
+                       'so: the call does not return' \
+                       % (f.qual, tn, short(c, 50), what, what)
+                if bad:
+                    rep.bad(rid, f, 'timeout handed to %s: %s' % (tgt.qual,
+                                                                  bad[0]),
+                            bad[1], f.loc(c), history=hist)
+                    continue
+                # inside a loop the budget must shrink
+                if node.loops and is_anchor:
+                    shrinks = tv.clock
+                    try:
+                        const = _bounded(prog, f, g, texpr, node.id)
+                    except _Unk:
+                        const = False
+                    if not shrinks and not const:
+                        rep.bad(rid, f, 'timeout handed to %s: not shared'
+                                % tgt.qual,
+                                '%s calls `%s` once per round of a loop and '
+                                'hands `%s` down each time without taking off '
+                                'the time already used: the rounds add up to '
+                                'a multiple of the timeout'
+                                % (f.qual, short(c, 60), shown), f.loc(c),
+                                history='%s(%s=10) for three %ss that never '
+                                'reach the state: returns after 30 seconds'
+                                % (f.qual, tn, what))
+                        continue
+                rep.ok(rid, f, '%s: `%s` hands down %s (%s) - %s takes each '
+                       'of them as a timeout' % (f.qual, short(c, 50), shown,
+                                                 '/'.join(sorted(vals)),
+                                                 tgt.qual), f.loc(c))
+
+
+# ------------------------------------------------------------------------------
 #
 def run(prog, rep, tier):
     rep.decided = ('for Task.wait, Pilot.wait, TaskManager.wait_tasks and '
@@ -2118,7 +3394,14 @@ def run(prog, rep, tier):
         'every request and state (state tables), and the check list only '
         'shrinks from round to round unless leaving it is permanent.  For all '
         'four: the timeout is compared with a difference of two reads of the '
-        'same clock.')
+        'same clock; every blocking call either has a period bounded by a '
+        'constant or waits on an event that every writer of the awaited state '
+        'sets afterwards on every path (and a clear() of that event is '
+        'followed by a re-read of the states before blocking).  For every '
+        'call of a wait anchor from the four classes: the timeout handed down '
+        'is, whenever the caller was given one, a value the callee treats as '
+        'a timeout (not None; 0 / negative only if the callee ends for it), '
+        'and shrinks with the clock when handed down in a loop.')
     rep.undecided = ('"shortly after" (the poll period and scheduling of the '
         'waiting thread); that the state attribute is eventually updated '
         '(C05/C06/C14); the value comparison of wait_tasks for non-final '
@@ -2140,6 +3423,16 @@ def run(prog, rep, tier):
         'clock functions are the time.* family and timeit.default_timer, '
         'resolved through the imports of the module; a clock hidden behind an '
         'attribute or an unresolvable call is not seen',
+        'the writers of a task / pilot state are the `<x>._update(..)` calls '
+        'on something else than self in the manager class (R06.2 / R14.2 '
+        'show there are no others) - a call guarded by `<x>.state == '
+        'd["state"]` does not change the state; statements after a write do '
+        'not raise; an event is an attribute of the four classes assigned '
+        'from Event() / Condition() and is identified by its attribute name',
+        'inside a manager, `<x>.wait(..)` on something that is not such an '
+        'event is the wait of the entity the manager manages; a timeout '
+        'parameter that is given is a positive number; an exact 0 from a '
+        'subtraction of clock reads is possible (coarse or virtual clocks)',
     ]
     rep.attempt(r15_1, prog, rep)
     rep.attempt(r15_2, prog, rep)
@@ -2147,6 +3440,8 @@ def run(prog, rep, tier):
     rep.attempt(r15_4, prog, rep)
     rep.attempt(r15_5, prog, rep)
     rep.attempt(r15_6, prog, rep)
+    rep.attempt(r15_7, prog, rep)
+    rep.attempt(r15_8, prog, rep)
 
 
 # ------------------------------------------------------------------------------
@@ -2543,4 +3838,179 @@ SILENT = [
     dict(name='wait_pilots: deadline computed once before the loop', edits=[
         (_PM, _PM_START, "        start    = time.time()\n        deadline = start + timeout if timeout else None\n        to_check = None\n\n        with self._pilots_lock:"),
         (_PM, _PM_TMO, "                if deadline is not None and time.time() >= deadline:")]),
+]
+
+
+# ------------------------------------------------------------------------------
+# R15.7 / R15.8 sites
+#
+# seed C15-e: wait_tasks sleeps on an event instead of polling
+_E_INIT  = (_TM, "        self._terminate   = mt.Event()\n        self._closed      = False\n",
+                 "        self._terminate   = mt.Event()\n        self._tasks_evt   = mt.Event()\n        self._closed      = False\n")
+_E_CLOSE = (_TM, "        self._terminate.set()\n        self._rep.info('<<close task manager')",
+                 "        self._terminate.set()\n        self._tasks_evt.set()\n        self._rep.info('<<close task manager')")
+_E_UPD   = (_TM, "        if to_notify:\n            if _USE_BULK_CB:",
+                 "        if to_notify:\n\n            self._tasks_evt.set()\n\n            if _USE_BULK_CB:")
+_E_TMO_OLD = ("            if timeout and (timeout <= (time.time() - start)):\n"
+              "                self._log.debug (\"wait timed out\")\n                break\n\n"
+              "            time.sleep (0.1)\n")
+_E_TMO_NEW = ("            remaining = None\n            if timeout:\n"
+              "                remaining = timeout - (time.time() - start)\n"
+              "                if remaining <= 0:\n"
+              "                    self._log.debug (\"wait timed out\")\n                    break\n\n")
+_E_LOOP  = (_TM, _E_TMO_OLD, _E_TMO_NEW + "            self._tasks_evt.clear()\n")
+_E_END_OLD = "            to_check = check_again\n\n        self._log.debug('wait completed')"
+_E_WAIT  = (_TM, _E_END_OLD,
+                 "            to_check = check_again\n\n            if to_check:\n"
+                 "                self._tasks_evt.wait(timeout=remaining)\n\n"
+                 "        self._log.debug('wait completed')")
+_E_CB_OLD = "                    task._update(update)\n                    tasks.append(task.as_dict())\n"
+_E_FIX   = (_TM, _E_CB_OLD, _E_CB_OLD + "                    self._tasks_evt.set()\n")
+_E_BASE  = [_E_INIT, _E_CLOSE, _E_LOOP, _E_WAIT]
+
+# seed C15-f: wait_pilots hands over to Pilot.wait
+_F_OLD = ("        self._rep.idle(mode='start')\n"
+          "        while to_check and not self._terminate.is_set():\n\n"
+          "            self._rep.idle()\n\n" + _PM_FILT +
+          "\n            if to_check:\n\n" + _PM_TMO + "\n"
+          "                    self._log.debug (\"wait timed out\")\n"
+          "                    break\n\n            time.sleep (0.1)\n")
+_F_HEAD = ("        self._rep.idle(mode='start')\n"
+           "        for pilot in to_check:\n\n"
+           "            if self._terminate.is_set():\n                break\n\n"
+           "            self._rep.idle()\n\n")
+_F_TAIL = ("\n" + _PM_FILT.replace("            to_check", "        to_check")
+                          .replace("                               if", "                           if")
+                          .replace("                                  pilot", "                              pilot"))
+
+
+def _seed_f(budget):
+    return [(_PM, _F_OLD, _F_HEAD + budget + _F_TAIL)]
+
+
+_F_SEED = ("            left = None\n            if timeout:\n"
+           "                left = max(0.0, timeout - (time.time() - start))\n\n"
+           "            pilot.wait(state=states, timeout=left)\n")
+
+MUTATIONS += [
+    # --- R15.7
+    dict(name='R15.7 seed C15-e: wait_tasks sleeps on an event the pilot-death callback never sets',
+         rules=('R15.7',), edits=_E_BASE + [_E_UPD],
+         note='_pilot_state_cb fails the tasks through task._update; the echo '
+              'of the publication is FAILED == FAILED and is skipped'),
+    dict(name='R15.7 event driven wait_tasks: the sibling writer (_update_tasks) does not wake',
+         rules=('R15.7',), edits=_E_BASE + [_E_FIX]),
+    dict(name='R15.7 event driven wait_tasks: event set before the state is written',
+         rules=('R15.7',), edits=_E_BASE + [_E_UPD,
+        (_TM, _E_CB_OLD, "                    self._tasks_evt.set()\n" + _E_CB_OLD)],
+         note='the waiter can wake, read the old state, clear and block again'),
+    dict(name='R15.7 event driven wait_tasks: woken only for restartable tasks',
+         rules=('R15.7',), edits=_E_BASE + [_E_UPD,
+        (_TM, _E_CB_OLD, _E_CB_OLD + "                    if task.description.get('restartable'):\n"
+                                     "                        self._tasks_evt.set()\n")]),
+    dict(name='R15.7 event driven wait_tasks: states checked, then cleared, then waited',
+         rules=('R15.7',), edits=[_E_INIT, _E_CLOSE, _E_UPD, _E_FIX,
+        (_TM, _E_TMO_OLD, _E_TMO_NEW),
+        (_TM, _E_END_OLD,
+              "            to_check = check_again\n\n            if to_check:\n"
+              "                self._tasks_evt.clear()\n"
+              "                self._tasks_evt.wait(timeout=remaining)\n\n"
+              "        self._log.debug('wait completed')")],
+         note='lost wake-up: an update between check and clear is wiped out'),
+    dict(name='R15.7 wait_pilots sleeps what is left of the timeout',
+         rules=('R15.7',), edits=[
+        (_PM, "                    break\n\n            time.sleep (0.1)\n\n        self._rep.idle(mode='stop')",
+              "                    break\n\n            time.sleep (timeout - (time.time() - start) if timeout else 0.1)\n\n        self._rep.idle(mode='stop')")]),
+    dict(name='R15.7 Task.wait blocks on the termination event for the whole timeout',
+         rules=('R15.7',), edits=[
+        (_T, _T_START, _T_START.replace("time.sleep(0.1)", "self._tmgr._terminate.wait(timeout)"))],
+         note='Task._update writes the state and sets nothing'),
+    dict(name='R15.7 Pilot.wait: poll period grows to the remaining timeout',
+         rules=('R15.7',), edits=[
+        (_P, "            time.sleep(0.1)\n            if timeout and (timeout <= (time.time() - start_wait)):",
+             "            nap = 0.1\n            if timeout:\n                nap = max(nap, timeout - (time.time() - start_wait))\n            time.sleep(nap)\n            if timeout and (timeout <= (time.time() - start_wait)):")]),
+    # --- R15.8
+    dict(name='R15.8 seed C15-f: wait_pilots hands max(0.0, left) to Pilot.wait, where 0 means no timeout',
+         rules=('R15.8',), edits=_seed_f(_F_SEED)),
+    dict(name='R15.8 wait_pilots hands the bare difference to Pilot.wait',
+         rules=('R15.8',), edits=_seed_f(
+        "            left = timeout - (time.time() - start) if timeout else None\n"
+        "            pilot.wait(states, left)\n")),
+    dict(name='R15.8 wait_pilots hands over without any timeout',
+         rules=('R15.8',), edits=_seed_f(
+        "            if timeout and (timeout <= (time.time() - start)):\n                break\n\n"
+        "            pilot.wait(state=states)\n")),
+    dict(name='R15.8 wait_pilots hands the full timeout to every pilot',
+         rules=('R15.8',), edits=_seed_f(
+        "            pilot.wait(state=states, timeout=timeout)\n"),
+         note='n pilots: n times the timeout'),
+    dict(name='R15.8 wait_pilots: budget rounded down to whole seconds',
+         rules=('R15.8',), edits=_seed_f(
+        "            left = None\n            if timeout:\n"
+        "                left = timeout - (time.time() - start)\n"
+        "                if left <= 0:\n                    break\n"
+        "                left = int(left)\n\n"
+        "            pilot.wait(state=states, timeout=left)\n"),
+         note='0.4 s left become 0: no timeout'),
+    dict(name='R15.8 cancel_pilots keeps a second of its timeout for itself, clamped at 0',
+         rules=('R15.8',), edits=[
+        (_PM, "        # wait for the cancel to be enacted\n        self.wait_pilots(uids=uids, timeout=_timeout)",
+              "        # wait for the cancel to be enacted\n        self.wait_pilots(uids=uids, timeout=max(0, _timeout - 1) if _timeout else None)")],
+         note='close(): cancel_pilots(_timeout=1) waits for ever'),
+]
+
+SILENT += [
+    # --- R15.7 sites (the first ones change the timing of the wake-up, not
+    #     what the property says: every writer wakes the waiter)
+    dict(name='event driven wait_tasks, both writers set the event', edits=_E_BASE + [_E_UPD, _E_FIX]),
+    dict(name='event driven wait_tasks, woken through a helper method', edits=_E_BASE + [
+        (_TM, "        if to_notify:\n            if _USE_BULK_CB:",
+              "        if to_notify:\n            self._wake()\n            if _USE_BULK_CB:"),
+        (_TM, _E_CB_OLD, _E_CB_OLD + "                    self._wake()\n"),
+        (_TM, "    def wait_tasks(self, uids=None, state=None, timeout=None):\n",
+              "    def _wake(self):\n\n        self._tasks_evt.set()\n\n\n"
+              "    def wait_tasks(self, uids=None, state=None, timeout=None):\n")]),
+    dict(name='event driven wait_tasks, event cached in a local, flag instead of list test', edits=_E_BASE + [_E_FIX,
+        (_TM, "        to_notify = list()\n\n        with self._tasks_lock:\n\n            for task_dict in task_dicts:",
+              "        to_notify = list()\n        changed   = False\n        evt       = self._tasks_evt\n\n        with self._tasks_lock:\n\n            for task_dict in task_dicts:"),
+        (_TM, "                        to_notify.append([task, s])\n",
+              "                        to_notify.append([task, s])\n                        changed = True\n"),
+        (_TM, "        if to_notify:\n            if _USE_BULK_CB:",
+              "        if changed:\n            evt.set()\n\n        if to_notify:\n            if _USE_BULK_CB:")]),
+    dict(name='event driven wait_tasks, Task._update wakes the manager for every caller', edits=_E_BASE + [
+        (_T, "            val = task_dict.get(key, None)\n            if val is not None:\n                setattr(self, \"_%s\" % key, val)\n",
+             "            val = task_dict.get(key, None)\n            if val is not None:\n                setattr(self, \"_%s\" % key, val)\n\n        self._tmgr._tasks_evt.set()\n")]),
+    dict(name='wait_tasks polls on the termination event', edits=[
+        (_TM, "            time.sleep (0.1)\n\n            # FIXME: print percentage...",
+              "            self._terminate.wait(0.1)\n\n            # FIXME: print percentage...")]),
+    dict(name='wait_pilots: poll period in a local', edits=[
+        (_PM, _PM_WHILE, "        period = 0.1\n" + _PM_WHILE),
+        (_PM, "                    break\n\n            time.sleep (0.1)\n\n        self._rep.idle(mode='stop')",
+              "                    break\n\n            time.sleep (period)\n\n        self._rep.idle(mode='stop')")]),
+    dict(name='Pilot.wait: poll period never longer than the timeout', edits=[
+        (_P, "            time.sleep(0.1)\n            if timeout and (timeout <= (time.time() - start_wait)):",
+             "            time.sleep(min(0.1, timeout) if timeout else 0.1)\n            if timeout and (timeout <= (time.time() - start_wait)):")]),
+    dict(name='Task.wait: poll period never longer than what is left', edits=[
+        (_T, _T_START, _T_START.replace("            time.sleep(0.1)\n",
+             "            nap = 0.1\n            if timeout:\n                nap = max(0.0, min(nap, timeout - (time.time() - start_wait)))\n            time.sleep(nap)\n"))]),
+    # --- R15.8 sites
+    dict(name='cancel_pilots: timeout through a local', edits=[
+        (_PM, "        # wait for the cancel to be enacted\n        self.wait_pilots(uids=uids, timeout=_timeout)",
+              "        # wait for the cancel to be enacted\n        tmo = _timeout\n        self.wait_pilots(uids=uids, timeout=tmo)")]),
+    dict(name='kill_pilots: arguments passed by position', edits=[
+        (_PM, "        # wait for the kill to be enacted\n        self.wait_pilots(uids=uids, timeout=_timeout)",
+              "        # wait for the kill to be enacted\n        self.wait_pilots(uids, None, _timeout)")]),
+    dict(name='cancel_pilots: falsy timeout spelled out as None', edits=[
+        (_PM, "        # wait for the cancel to be enacted\n        self.wait_pilots(uids=uids, timeout=_timeout)",
+              "        # wait for the cancel to be enacted\n        self.wait_pilots(uids=uids, timeout=_timeout if _timeout else None)")]),
+    dict(name='kill_pilots: hand-over through an extracted helper', edits=[
+        (_PM, "        # wait for the kill to be enacted\n        self.wait_pilots(uids=uids, timeout=_timeout)",
+              "        # wait for the kill to be enacted\n        self._await(uids, _timeout)"),
+        (_PM, "    def wait_pilots(self, uids=None, state=None, timeout=None):\n",
+              "    def _await(self, uids, tmo):\n\n        return self.wait_pilots(uids=uids, timeout=tmo or None)\n\n\n"
+              "    def wait_pilots(self, uids=None, state=None, timeout=None):\n")]),
+    dict(name='wait_pilots polls by waiting 0.1 s on the first pending pilot', edits=[
+        (_PM, "                    break\n\n            time.sleep (0.1)\n\n        self._rep.idle(mode='stop')",
+              "                    break\n\n                to_check[0].wait(state=states, timeout=0.1)\n\n        self._rep.idle(mode='stop')")],
+         note='hand-over inside the polling loop with a constant period'),
 ]
